@@ -3,7 +3,7 @@
 (* DWARF forests and the two views dwgrep gives of them.                   *)
 (*                                                                         *)
 (* A forest F is a record                                                  *)
-(*   [units |-> <<[kind |-> "cu" | "pu", ver |-> 2..5, root |-> id>>, ...],*)
+(*   [units |-> <<[kind |-> "cu" | "pu" | "tu" | "sk", ver |-> 2..5, root |-> id>>, ...],*)
 (*    die   |-> [id |-> [tag, kids: Seq(id), attrs: Seq(attr), hc]]]       *)
 (*   attr = [n |-> name, f |-> form, r |-> referenced DIE id or 0]         *)
 (* tags: "cu" "pu" "imp" (DW_TAG_imported_unit) "ns" "var" "sub" ...       *)
@@ -84,7 +84,8 @@ CookedBelow(F, v) ==
               IF t # 0 THEN CookedBelow(F, CD(t, <<k>> \o v.ch))
               ELSE <<CD(k, v.ch)>> \o CookedBelow(F, CD(k, v.ch))])
 
-CookedUnits(F) == SelectSeq([i \in 1..Len(F.units) |-> i], LAMBDA i: F.units[i].kind = "cu")
+\* (a version 5 type unit "tu" or skeleton unit "sk" is listed like a compile unit: only partial units are hidden)
+CookedUnits(F) == SelectSeq([i \in 1..Len(F.units) |-> i], LAMBDA i: F.units[i].kind # "pu")
 \* `entry' on a Dwarf: every compile unit's DIEs, imports inlined
 CookedEntries(F) ==
     Concat([j \in 1..Len(CookedUnits(F)) |->
